@@ -190,17 +190,17 @@ _real_fns = _sign_fns + ["LmsSignature::sign / build_authentication_path", "lms:
                          "LmsPrivateKey::use_lmots_private_key", "generate_signature_randomizer / SeedDerive"]
 _sum_stub = DEFAULT_STUBS + ["HashChain::do_actual_hash_chain overridden by HavocSum16 (one havoc step)"]
 for c in (0, 1, 2, 3):
-    H("C04", "thorough", "c04", f"c04_protocol_real_h2w8_l1_c{c}", config="l1w8h5", flagset="eq", timeout=14400,
+    H("C04", "experimental", "c04", f"c04_protocol_real_h2w8_l1_c{c}", config="l1w8h5", flagset="eq", timeout=14400,
       model="HavocSum16 (digests havoc, Winternitz chain summarised by the HashChain override)", encodes=_real_fns, unwind=36,
       forall=f"1 level H2(hook)/W8, counter {c} (one instance per counter value 0..3): every 16-byte seed, every message of length 0..4, both callback outcomes",
       bounds="4-leaf tree, W8 (18 chains), n=16", stubs=_sum_stub)
 for c in (0, 3, 4, 15):
-    H("C04", "thorough", "c04", f"c04_protocol_real_h2w8_l2_c{c}", config="l2w8h5", flagset="eq", timeout=28800, model="HavocSum16",
+    H("C04", "experimental", "c04", f"c04_protocol_real_h2w8_l2_c{c}", config="l2w8h5", flagset="eq", timeout=28800, model="HavocSum16",
       encodes=_real_fns + ["lms::generate_key_pair", "generate_child_seed_and_lms_tree_identifier"], unwind=36,
       forall=f"2 levels H2/W8, counter {c} (instances 0, 3, 4 = roll-over into a fresh subtree, 15 = last leaf): seed, message, both outcomes",
       bounds="4-leaf trees, W8, n=16", stubs=_sum_stub)
 for c in (0, 2, 3):
-    H("C04", "thorough", "c04", f"c04_signing_key_entry_h2w8_l1_c{c}", config="l1w8h5", flagset="eq", timeout=14400, model="HavocSum16",
+    H("C04", "experimental", "c04", f"c04_signing_key_entry_h2w8_l1_c{c}", config="l1w8h5", flagset="eq", timeout=14400, model="HavocSum16",
       encodes=_real_fns + ["SigningKey::from_bytes / try_sign / try_sign_with_aux / get_lifetime / as_slice"], unwind=36,
       forall=f"1 level H2/W8, counter {c}: seed, 3-byte message; sign, lifetime before/after, second sign after exhaustion", bounds="4-leaf tree, W8, n=16", stubs=_sum_stub)
 _contract_stubs = DEFAULT_STUBS + ["lms::generate_key_pair -> contracts::model_generate_key_pair (same private key, havoc root)",
@@ -211,7 +211,7 @@ _pre_fns = ["hss::hss_sign / hss_sign_core (up to the expansion)", "ReferenceImp
             "HssPrivateKey::get_expanded_aux_data", "SigningKey::from_bytes / get_lifetime"]
 for prop in ("C04", "C11"):
     for name, n, aux in (("c04_malformed_key_n16", 16, False), ("c04_malformed_key_aux_n16", 16, True), ("c04_malformed_key_n32", 32, False)):
-        H(prop, "thorough" if aux else "quick", "c04", name, config="w8", timeout=3600, model=f"HavocSum{n}", encodes=_pre_fns, unwind=36, replayable="try",
+        H(prop, "experimental" if aux else "quick", "c04", name, config="w8", timeout=3600, model=f"HavocSum{n}", encodes=_pre_fns, unwind=36, replayable="try",
           stubs=DEFAULT_STUBS + ["HssPrivateKey::from -> contracts::model_from_fails (the expansion always fails: every path ends in an error)"],
           forall="every private-key byte string of every length 0..56 (all 256 values of every byte), 2-byte message, both callback outcomes"
                  + (", every auxiliary buffer of every length 0..48 and content" if aux else ""),
@@ -226,21 +226,22 @@ _light_stubs = DEFAULT_STUBS + ["HssPrivateKey::from -> contracts::model_from_li
 _tail_fns = ["hss::hss_sign / hss_sign_core", "ReferenceImplPrivateKey::from_binary_representation / increment / wipe / to_binary_representation",
              "CompressedParameterSet::to", "CompressedUsedLeafsIndexes::to / increment", "Signature::from_bytes_verbose", "SigningKey::get_lifetime", "HssPrivateKey::get_lifetime"]
 for prop in ("C03", "C04", "C05"):
-    for name, cfg, tier in (("c04_protocol_light_h20", "l1w8", "quick"), ("c04_protocol_light_h25_h5", "l2w8", "thorough"),
-                            ("c04_protocol_light_h5_h10_h25", "l3w8", "thorough"), ("c04_protocol_light_8x_h5", "w8", "thorough")):
+    # multi-level instances: not validated on the unchanged tree within this round (kani-driver / CBMC memory) -> experimental
+    for name, cfg, tier in (("c04_protocol_light_h20", "l1w8", "quick"), ("c04_protocol_light_h25_h5", "l2w8", "experimental"),
+                            ("c04_protocol_light_h5_h10_h25", "l3w8", "experimental"), ("c04_protocol_light_8x_h5", "w8", "experimental")):
         H(prop, tier, "c04", name, config=cfg, timeout=7200, model="HavocSum16", encodes=_tail_fns, unwind=36, replayable=False, stubs=_light_stubs,
           forall="concrete shape (type bytes assigned), every counter of the complete lifetime, every seed, both callback outcomes: lifetime query, one signing call, "
                  "callback count / argument / result, leaf index of every level in the released record",
           bounds="n=16, W8; both HSS-level operations by contract")
 for prop in ("C03", "C05"):
-    for name, cfg, tier in (("c03_expand_and_sign_h20", "l1w8", "quick"), ("c03_expand_and_sign_h25_h5", "l2w8", "thorough"), ("c03_expand_and_sign_h5_h10_h25", "l3w8", "thorough")):
+    for name, cfg, tier in (("c03_expand_and_sign_h20", "l1w8", "quick"), ("c03_expand_and_sign_h25_h5", "l2w8", "experimental"), ("c03_expand_and_sign_h5_h10_h25", "l3w8", "experimental")):
         H(prop, tier, "c04", name, config=cfg, timeout=7200, model="HavocSum16", unwind=36, replayable=False, stubs=_contract_stubs,
           encodes=["ReferenceImplPrivateKey::from_binary_representation", "HssPrivateKey::from / get_lifetime", "HssSignature::sign", "CompressedUsedLeafsIndexes::to"],
           forall="concrete shape, every counter of the complete lifetime, every seed: expansion + HSS signing; used leaf of every level, signatures over child keys, "
                  "bottom leaf in the released structure, refusal of a second signature", bounds="n=16, W8; LMS layer by contract")
     for name, cfg, tier in (("c03_step_contract_h20", "l1w8", "thorough"), ("c03_step_contract_h25_h5", "l2w8", "thorough"),
                             ("c03_step_contract_h5_h10_h25", "l3w8", "thorough"), ("c03_step_contract_h15_h15_h15_h15", "l4w8", "thorough"), ("c03_step_contract_8x_h5", "w8", "thorough")):
-        H(prop, tier, "c04", name, config=cfg, timeout=14400, model="HavocSum16", encodes=_sign_fns + ["SigningKey::get_lifetime", "HssPrivateKey::get_lifetime"],
+        H(prop, "experimental", "c04", name, config=cfg, timeout=14400, model="HavocSum16", encodes=_sign_fns + ["SigningKey::get_lifetime", "HssPrivateKey::get_lifetime"],
           unwind=36, replayable=False, stubs=_contract_stubs,
           forall="concrete shape (type bytes assigned), every counter of the complete lifetime (up to 2^60), every seed, both callback outcomes",
           bounds="n=16, W8; LMS layer by contract (tall trees are not built)")
@@ -323,11 +324,11 @@ for n in (16, 24, 32):
           encodes=["generate_child_seed_and_lms_tree_identifier", "generate_signature_randomizer", "SeedDerive::seed_derive"],
           forall="every parent seed, identifier and 32-bit leaf index, every digest value", bounds="exact", unwind=70)
 for name in ("c08_ots_private_key_n16_w8", "c08_ots_private_key_n24_w8", "c08_ots_private_key_n32_w8", "c08_ots_private_key_n16_w4"):
-    H("C08", "quick" if name.endswith("n16_w8") else "thorough", "c08d", name, config="w8" if name.endswith("w8") else "w4", timeout=3600, model=_rec, encodes=["lm_ots::keygen::generate_private_key"],
+    H("C08", "quick" if name.endswith("n16_w8") else "experimental", "c08d", name, config="w8" if name.endswith("w8") else "w4", timeout=3600, model=_rec, encodes=["lm_ots::keygen::generate_private_key"],
       forall="every seed, identifier, 32-bit leaf index, every digest value", bounds="p <= 35 chains (W8 for all n, W4 for n=16); the 265-chain case (n=32, W1) is outside", unwind=70)
 _recsum = _rec + "; Winternitz chain recorded as one summarised step (HashChain override), the default loop is covered by c07_chain_default_loop_*"
 for name in ("c08_ots_public_key_n16_w8", "c08_ots_public_key_n32_w8", "c08_ots_public_key_n16_w4"):
-    H("C08", "thorough", "c08d", name, config="w8" if name.endswith("w8") else "w4", timeout=7200, model=_recsum, encodes=["lm_ots::keygen::generate_public_key", "HashChain::prepare_hash_chain_data / do_hash_chain"],
+    H("C08", "thorough" if name.endswith("n16_w8") else "experimental", "c08d", name, config="w8" if name.endswith("w8") else "w4", timeout=7200, model=_recsum, encodes=["lm_ots::keygen::generate_public_key", "HashChain::prepare_hash_chain_data / do_hash_chain"],
       forall="every chain start value, identifier, leaf index, every digest value", bounds="p <= 35 chains", unwind=70)
 for half in ("sign", "candidate"):
     for inst in ("n16_w8", "n16_w4", "n32_w8"):
@@ -387,19 +388,19 @@ H("C10", "quick", "c10", "c10_mac_guard_even_levels", timeout=3600, model=_rec, 
   encodes=["hss::aux::hss_expand_aux_data", "hss::aux::compute_hmac"], forall="as c10_mac_guard_exact_tail with levels 2 and 4 (even levels, as cached for top trees of height 10/20)", bounds="level area 324 bytes")
 for prop in ("C10", "C11"):
     for name in ("c10_expand_arbitrary_len40_seed", "c10_expand_arbitrary_len40_noseed", "c10_expand_arbitrary_len40_lowlevels", "c10_expand_arbitrary_len3_seed", "c10_expand_arbitrary_len4_seed",
-                 "c10_expand_arbitrary_len1_noseed", "c10_expand_arbitrary_len0"):
+                 "c10_expand_arbitrary_len1_noseed", "c10_expand_arbitrary_len0", "c10_expand_arbitrary_len8_noseed"):
         # the 40-byte instances did not finish within 20 minutes: experimental (not part of any registered command)
-        H(prop, "experimental" if ("len40" in name or "len4_" in name) else "quick", "c10", name, timeout=3600, model="Havoc16", unwind=40,
+        H(prop, "experimental" if ("len40" in name or "len4_" in name or "len8_" in name) else "quick", "c10", name, timeout=3600, model="Havoc16", unwind=40,
           encodes=["hss::aux::hss_is_aux_data_used", "hss::aux::hss_expand_aux_data"],
           forall="every buffer content; one byte of the level word symbolic per instance (byte 0 = marker and level bits 24..30, or byte 3 = levels 0..7); length and seed presence per instance",
           bounds="cap 40 bytes")
 for prop in ("C04", "C09", "C05"):
-    H(prop, "thorough", "c04", "c04_signing_key_entry_light_h5", config="l1w8h5", timeout=7200, model="HavocSum16", unwind=36, replayable=False, stubs=_light_stubs,
+    H(prop, "quick" if prop == "C09" else "thorough", "c04", "c04_signing_key_entry_light_h5", config="l1w8h5", timeout=7200, model="HavocSum16", unwind=36, replayable=False, stubs=_light_stubs,
       encodes=_tail_fns + ["SigningKey::from_bytes / try_sign / try_sign_with_aux / as_slice"],
       forall="1 level H5/W8 (type byte assigned), every counter 0..31, every seed: in-memory key after try_sign, lifetime, second sign after exhaustion", bounds="n=16")
-    H(prop, "thorough", "c04", "c04_signing_key_entry_light_h10_h5", config="l2w8", timeout=14400, model="HavocSum16", unwind=36, replayable=False, stubs=_light_stubs,
+    H(prop, "experimental", "c04", "c04_signing_key_entry_light_h10_h5", config="l2w8", timeout=14400, model="HavocSum16", unwind=36, replayable=False, stubs=_light_stubs,
       encodes=_tail_fns + ["SigningKey::*"], forall="2 levels H10,H5 / W8, every counter 0..2^15-1, every seed", bounds="n=16")
-    H(prop, "thorough", "c04", "c04_signing_key_entry_contract_h5", config="l1w8h5", timeout=14400, model="HavocSum16", unwind=36, replayable=False, stubs=_contract_stubs,
+    H(prop, "experimental", "c04", "c04_signing_key_entry_contract_h5", config="l1w8h5", timeout=14400, model="HavocSum16", unwind=36, replayable=False, stubs=_contract_stubs,
       encodes=_sign_fns + ["SigningKey::*"], forall="as the light variant, with the real expansion and HSS signing over the LMS contract", bounds="n=16")
 # C14: the same harnesses under reduced / non-uniform build configurations
 for cfg in ("default", "w8", "l1w8h5", "l2w8h5", "l2mixed", "l3mixed", "l3w8h5"):
@@ -429,3 +430,12 @@ for name, tier in (("c09_sign_twice_contract_h5", "quick"), ("c09_sign_twice_con
 
 H("C16", "quick", "c13", "c05_wipe_l1", flagset="std64", timeout=3600, model="Havoc16", unwind=34, encodes=["ReferenceImplPrivateKey::increment / wipe / to_binary_representation"],
   forall="1 level, all heights, every counter and seed: the blob handed on after the last leaf carries no seed byte", bounds="exact; n = 16")
+
+# experimental: did not finish within 60 minutes (265 iterations of the recording hasher)
+H("C08", "experimental", "c08d", "c08_ots_private_key_n32_w1_layout", timeout=7200, model="Rec32 with on-the-fly layout expectation (265 queries exceed the tape)", unwind=270,
+  encodes=["lm_ots::keygen::generate_private_key"], forall="every seed, identifier and leaf index; all 265 chain indices of (n=32, W1)", bounds="exact for p = 265")
+for w in (1, 2, 4, 8):
+    H("C07", "quick", "c12", f"c12_d1_coef_w{w}", timeout=300, model="none (pure function)", encodes=["util::coef::coef"], unwind=2,
+      forall=f"every 34-byte string, every digit index i < 272/{w}", bounds="exact for the library's buffers")
+H("C16", "quick", "c13", "c05_wipe_l2", flagset="std64", timeout=3600, model="Havoc16", unwind=34, encodes=["ReferenceImplPrivateKey::increment / wipe / to_binary_representation"],
+  forall="2 levels, all heights (total height up to 50), every counter and seed: the blob handed on after the last leaf carries no seed byte", bounds="exact; n = 16")
